@@ -11,6 +11,7 @@ import Katib.Drv.C20
 import Katib.Drv.C02
 import Katib.Drv.C12
 import Katib.Drv.C14
+import Katib.Drv.C18
 import Katib.Oracle.Sim
 open Katib Katib.Drv
 
@@ -46,6 +47,7 @@ def handleOracle (toks out : List String) : String :=
   | "C02" :: r => oracleLineC02 r out
   | "C12" :: r => oracleLineC12 r out
   | "C14" :: r => oracleLineC14 r out
+  | "C18" :: r => oracleLineC18 r out
   | _ => "bad-op"
 
 def splitArrow (toks : List String) : List String × List String :=
@@ -54,6 +56,7 @@ def splitArrow (toks : List String) : List String × List String :=
 structure DrvState where
   sim : Katib.Ctl.Sim := {}
   orc : OracleSt := {}
+  gop : Katib.Gop.Svc := {}
 
 def handleLine (st : DrvState) (line : String) : DrvState × String :=
   match tokens line with
@@ -63,6 +66,7 @@ def handleLine (st : DrvState) (line : String) : DrvState × String :=
     ({ st with orc := o' }, v)
   | "ORACLE" :: r => let (a, b) := splitArrow r; (st, handleOracle a b)
   | "SIM" :: r => let (s', out) := handleSim st.sim r; ({ st with sim := s' }, out)
+  | "C18" :: r => let (g', out) := handleC18 st.gop r; ({ st with gop := g' }, out)
   | toks => (st, handle toks)
 
 partial def loop (h : IO.FS.Stream) (out : IO.FS.Stream) (st : DrvState) : IO Unit := do
